@@ -294,7 +294,8 @@ theorem groupvm_is_corevm_partial_fork (fuel : Nat) (s : CoreVM.VM) (f : CoreInd
       -- the HeadX records: the forking head lists the new heads as its children, the new heads have none
       (∀ a0, OMap.lookup (f, h) s.r.hx = some a0 → (∀ m, m > s.r.nextUid → OMap.lookup (f, CoreVM.uidOf m) s.r.hx = none) →
         ((OMap.lookup (f, h) s2.r.hx).getD {}).childHeadUids = a0.childHeadUids ++ (CoreVM.newKeys f s.r.nextUid lps.length).map (·.2) ∧
-        (∀ k ∈ CoreVM.newKeys f s.r.nextUid lps.length, ((OMap.lookup k s2.r.hx).getD {}).childHeadUids = [])) :=
+        (∀ k ∈ CoreVM.newKeys f s.r.nextUid lps.length, ((OMap.lookup k s2.r.hx).getD {}).childHeadUids = [] ∧
+          ((OMap.lookup k s2.r.hx).getD {}).scores = a0.scores)) :=
   CoreVM.fork_segment fuel s f h i x cfg hd fl u lps H hact hlis hcatch hsz hfork hl hnews hnd hfresh
 
 /-- **groupvm_is_corevm_partial (merge segment, the and-clause completes).**  After phase 1 exactly one member head is MERGING, the
